@@ -390,7 +390,7 @@ impl Cell {
     }
     pub fn to_isize(&self) -> Xresult1<isize> {
         match self.value() {
-            Cell::Int(i) => Ok(*i as isize),
+            Cell::Int(i) => std::convert::TryFrom::try_from(*i).map_err(|_| Xerr::IntegerOverflow),
             val => Err(cell_type_error(INT_TYPE_NAME, val.clone())),
         }
     }
@@ -399,7 +399,7 @@ impl Cell {
         match self.value() {
             Cell::Int(i) if *i < 0 =>
                 Err(cell_type_error(xeh_xstr!("positive integer"), self.clone())),
-            Cell::Int(i) => Ok(*i as usize),
+            Cell::Int(i) => std::convert::TryFrom::try_from(*i).map_err(|_| Xerr::IntegerOverflow),
             val => Err(cell_type_error(INT_TYPE_NAME, val.clone())),
         }
     }
